@@ -198,12 +198,16 @@ def model_text(model, limit=1500):
     return s if len(s) <= limit else s[:limit] + " ..."
 
 
-def run_native(contract: Contract, tier, seed):
-    """Bounded stand-in / cross-check: real function on enumerated + random small cases."""
+def run_native(contract: Contract, tier, seed, shard=None):
+    """Bounded stand-in / cross-check: real function on enumerated + random small cases.
+    `shard` = (k, n): only the cases whose ordinal is k modulo n (the case generator is
+    deterministic for a given seed, so the n shards partition the case list)."""
     rng = random.Random(seed)
     out = {"contract": contract.name, "cases": 0, "failures": [], "scope": contract.bounded_scope, "error": None, "samples": []}
     try:
-        for case in contract.native_cases(tier, rng):
+        for ordinal, case in enumerate(contract.native_cases(tier, rng)):
+            if shard is not None and ordinal % shard[1] != shard[0]:
+                continue
             out["cases"] += 1
             fail = contract.native_check(case)
             if len(out["samples"]) < 2:
@@ -233,7 +237,7 @@ def _worker(job):
         cls = getattr(mod, cls_name)
         contract = cls()
         if kind == "native":
-            return ("native", cls_name, run_native(contract, tier, seed))
+            return ("native", cls_name, run_native(contract, tier, seed, shard=case))
         others = []
         for m2, c2 in all_specs:
             k2 = getattr(importlib.import_module(m2), c2)
